@@ -504,8 +504,10 @@ def scale(ctx):
     """Scale: id collections with more than 1000 entries on a long axis."""
     import scipy.sparse as sp
     r = ctx.rng('scale')
-    for axis in ('sample', 'observation'):
-        n = 1300
+    sizes = [1300] + gen.boundary_sizes(r, 300, 5000,
+                                        1 if ctx.tier == 'quick' else 6)
+    for axis, n in [(a, n_) for n_ in sizes
+                    for a in ('sample', 'observation')]:
         ids = ['id%04d' % i for i in range(n)]
         other = ['x', 'y']
         rng = np.random.default_rng(r.randrange(2 ** 32))
@@ -517,7 +519,7 @@ def scale(ctx):
 
         def make():
             return gen.build(ctx.biom, spec, 'csr')
-        keep = r.sample(ids, 1100)
+        keep = r.sample(ids, n - max(1, n // 7))
         for coll in ('list', 'set', 'ndarray'):
             for invert in (False, True):
                 res = make().filter(as_collection(r, keep, coll), axis=axis,
